@@ -60,17 +60,17 @@ func c12Gen(rng *rand.Rand) c12Sched {
 	default:
 		nw = 1 + rng.IntN(16)
 	}
-	mode := rng.IntN(5)
-	if mode == 4 {
+	mode := rng.IntN(6)
+	if mode >= 4 {
 		// synchronised bursts: every worker follows the same schedule, so at each step all of
 		// them call Current() at the same virtual instant (also at the instant a renewal is due)
 		nw = 4 + rng.IntN(13)
-		n := 3 + rng.IntN(10)
+		n := 6 + rng.IntN(16)
 		var steps []c12Step
 		for i := 0; i < n; i++ {
 			d := c12Gaps[rng.IntN(len(c12Gaps))]
 			if rng.IntN(2) == 0 {
-				d = time.Duration(1+rng.IntN(30)) * time.Hour
+				d = time.Duration(20+rng.IntN(12)) * time.Hour // mostly around the renewal interval: most bursts meet a renewal that is due
 			}
 			steps = append(steps, c12Step{Sleep: int64(d), Op: 0})
 		}
